@@ -115,11 +115,14 @@ def random_value(rng):
             num //= 2
             e2 += 1
         mb = num.to_bytes((num.bit_length() + 7) // 8, "big")
-        if -128 <= e2 < 128:
-            eb, ef = e2.to_bytes(1, "big", signed=True), 0
-        else:
-            eb, ef = e2.to_bytes(2, "big", signed=True), 1
-        return ("real", bytes([0x80 | (0x40 if x < 0 else 0) | ef]) + eb + mb)
+        form = rng.randrange(4)
+        width = max(form + 1 if form < 3 else rng.choice([1, 2, 3, 4]), 1 if -128 <= e2 < 128 else 2)
+        if form < 3 and width != form + 1:
+            form = width - 1
+        eb = e2.to_bytes(width, "big", signed=True)
+        if form == 3:
+            return ("real", bytes([0x80 | (0x40 if x < 0 else 0) | 3, width]) + eb + mb)
+        return ("real", bytes([0x80 | (0x40 if x < 0 else 0) | form]) + eb + mb)
     if c == 9:
         return ("real", b"\x03" + ("%.6E" % rng.uniform(-1e6, 1e6)).encode())
     if c == 10:
